@@ -1,6 +1,7 @@
 package props
 
 import (
+	"sync"
 	"bytes"
 	"context"
 	"fmt"
@@ -34,6 +35,7 @@ type profRig struct {
 	profiler    string
 	shortBinary string // set by useLongName: the same file under its ordinary name
 	cacheMount  string // if set: the cache directory is a tmpfs mount of its own
+	pidns       bool   // if set: every profiler run is the first process of a new pid namespace (as in a container)
 	tmpdir      string // if set: TMPDIR of the profiler, a directory on another file system than its home (renames between
 	// the two fail with EXDEV)
 }
@@ -242,6 +244,9 @@ func (r *profRig) runLimited(mode string, kill bool, fsize int64, args ...string
 	cmd.Env = r.env(path, mode)
 	cmd.Dir = r.dir
 	cmd.SysProcAttr = &syscall.SysProcAttr{Credential: &syscall.Credential{Uid: profilerUid, Gid: profilerUid}, Setpgid: true}
+	if r.pidns {
+		cmd.SysProcAttr.Cloneflags = syscall.CLONE_NEWPID
+	}
 	var so, se bytes.Buffer
 	cmd.Stdout, cmd.Stderr = &so, &se
 	cmd.Cancel = func() error { return syscall.Kill(-cmd.Process.Pid, syscall.SIGKILL) }
@@ -396,6 +401,9 @@ func (r *profRig) start(mode string, args ...string) (*profAsync, error) {
 	cmd.Env = r.env(r.bindir, mode)
 	cmd.Dir = r.dir
 	cmd.SysProcAttr = &syscall.SysProcAttr{Credential: &syscall.Credential{Uid: profilerUid, Gid: profilerUid}, Setpgid: true}
+	if r.pidns {
+		cmd.SysProcAttr.Cloneflags = syscall.CLONE_NEWPID
+	}
 	a := &profAsync{cmd: cmd, so: &bytes.Buffer{}, se: &bytes.Buffer{}, cancel: cancel}
 	cmd.Stdout, cmd.Stderr = a.so, a.se
 	cmd.Cancel = func() error { return syscall.Kill(-cmd.Process.Pid, syscall.SIGKILL) }
@@ -422,4 +430,17 @@ func (a *profAsync) wait() (*profRun, error) {
 		return nil, err
 	}
 	return res, nil
+}
+
+var pidnsOnce sync.Once
+var pidnsOK bool
+
+// pidNamespacesAvailable: a process can be started as the first one of a new pid namespace here.
+func pidNamespacesAvailable() bool {
+	pidnsOnce.Do(func() {
+		cmd := exec.Command("/bin/true")
+		cmd.SysProcAttr = &syscall.SysProcAttr{Cloneflags: syscall.CLONE_NEWPID}
+		pidnsOK = cmd.Run() == nil
+	})
+	return pidnsOK
 }
